@@ -47,6 +47,10 @@ def open_world(world, scratch, variant=0, *, materialise=None, tag='input', raw=
         return opener(path, mask_and_scale=False)
     if mat == 'chunked':
         return opener(path, chunks={})
+    if mat == 'chunked_auto':
+        # chunk sizes come from the process's dask configuration (array.chunk-size): with a small value every variable
+        # is cut along all of its dimensions
+        return opener(path, chunks='auto')
     raise ValueError(mat)
 
 
